@@ -501,7 +501,17 @@ fn snapshot_log() -> Vec<Entity> {
     CTL.0.lock().unwrap().as_ref().unwrap().log.clone()
 }
 
-fn exec_call(tid: usize, call: &Call, ents: &Entities, lazy: &LazyUpdate) {
+// The same source is built twice: by harness/ against specs with all features, and by harness/np/ (feature `np`)
+// against specs WITHOUT its default `parallel` feature. There `World` and `LazyUpdate` are not `Sync`; what threads can
+// still share is `&EntitiesRes`, so the threads get that reference and lazy calls are answered with `skip`
+// (the np generator does not produce them).
+#[cfg(not(feature = "np"))]
+type LazyRef<'a> = &'a LazyUpdate;
+#[cfg(feature = "np")]
+type LazyRef<'a> = &'a ();
+const NP: bool = cfg!(feature = "np");
+
+fn exec_call(tid: usize, call: &Call, ents: &specs::world::EntitiesRes, lazy: LazyRef) {
     match call {
         Call::Create => {
             let e = ents.create();
@@ -530,28 +540,32 @@ fn exec_call(tid: usize, call: &Call, ents: &Entities, lazy: &LazyUpdate) {
         },
         Call::Join => {
             let mut s = format!("ev {} join => es", tid);
-            for e in (&**ents).join() {
+            for e in (&*ents).join() {
                 write!(s, " {}", show_entity(e)).unwrap();
             }
             push_event(s, None);
         }
+        #[cfg(not(feature = "np"))]
         Call::Lazy(tag) => {
             let tag = *tag;
             lazy.exec(move |w| w.write_resource::<LazyLog>().0.push(tag));
             push_event(format!("ev {} lazy {} => ok", tid, tag), None);
         }
+        #[cfg(feature = "np")]
+        Call::Lazy(tag) => {
+            let _ = lazy;
+            push_event(format!("ev {} lazy {} => skip", tid, tag), None);
+        }
     }
 }
 
-fn thread_body(tid: usize, prog: &[Call], world: &World) {
+fn thread_body(tid: usize, prog: &[Call], ents: &specs::world::EntitiesRes, lazy: LazyRef) {
     TID.with(|t| t.set(tid));
     let r = catch_unwind(AssertUnwindSafe(|| {
-        let ents = world.entities();
-        let lazy = world.read_resource::<LazyUpdate>();
         wait_turn(tid);
         for (i, call) in prog.iter().enumerate() {
             FRESH.with(|f| f.set(true));
-            let r = catch_unwind(AssertUnwindSafe(|| exec_call(tid, call, &ents, &lazy)));
+            let r = catch_unwind(AssertUnwindSafe(|| exec_call(tid, call, ents, lazy)));
             if let Err(p) = r {
                 if p.is::<Abort>() {
                     resume_unwind(p);
@@ -649,11 +663,20 @@ fn run_case(case: &Case, out: &mut String, sched_is_prefix: bool, hang_secs: u64
     verif::set_scheduler(Some(on_yield));
     let world = &ex.world;
     let mut hung = false;
+    {
+    let ents_f = world.entities();
+    let ents: &specs::world::EntitiesRes = &*ents_f;
+    #[cfg(not(feature = "np"))]
+    let lazy_f = world.read_resource::<LazyUpdate>();
+    #[cfg(not(feature = "np"))]
+    let lazy: LazyRef = &*lazy_f;
+    #[cfg(feature = "np")]
+    let lazy: LazyRef = &();
     std::thread::scope(|s| {
         for t in 0..n {
             if !case.progs[t].is_empty() {
                 let prog = &case.progs[t];
-                s.spawn(move || thread_body(t, prog, world));
+                s.spawn(move || thread_body(t, prog, ents, lazy));
             }
         }
         let mut g = CTL.0.lock().unwrap();
@@ -697,6 +720,7 @@ fn run_case(case: &Case, out: &mut String, sched_is_prefix: bool, hang_secs: u64
             std::process::exit(3);
         }
     });
+    }
     verif::set_scheduler(None);
     let st = CTL.0.lock().unwrap().take().unwrap();
     if sched_is_prefix {
@@ -886,6 +910,7 @@ fn gen_case(rng: &mut Rng, id: String, maxthreads: usize, maxcalls: usize) -> Ca
                 2 => { steps += 2; Call::Del(pick_slot(rng, expect + 2 * n)) }
                 3 => { steps += 1; Call::Alive(pick_slot(rng, expect + 2 * n)) }
                 4 => { steps += 1; Call::Join }
+                _ if NP => { steps += 1; Call::Alive(pick_slot(rng, expect + 2 * n)) }
                 _ => { steps += 1; tag += 1; Call::Lazy(tag) }
             };
             p.push(c);
@@ -951,7 +976,16 @@ fn stress(seed: u64, threads: usize, calls: usize, out: &mut String) {
     let world = &ex.world;
     let seeds: Vec<u64> = (0..threads).map(|_| rng.next()).collect();
     struct TR { created: Vec<Entity>, requested: Vec<Entity>, fails: Vec<String>, tags: Vec<u32> }
-    let results: Vec<TR> = std::thread::scope(|s| {
+    let results: Vec<TR> = {
+    let ents_f = world.entities();
+    let ents_r: &specs::world::EntitiesRes = &*ents_f;
+    #[cfg(not(feature = "np"))]
+    let lazy_f = world.read_resource::<LazyUpdate>();
+    #[cfg(not(feature = "np"))]
+    let lazy_r: LazyRef = &*lazy_f;
+    #[cfg(feature = "np")]
+    let lazy_r: LazyRef = &();
+    std::thread::scope(|s| {
         let hs: Vec<_> = (0..threads).map(|t| {
             let barrier = &barrier;
             let shared = &shared;
@@ -961,8 +995,8 @@ fn stress(seed: u64, threads: usize, calls: usize, out: &mut String) {
             s.spawn(move || {
                 let mut rng = Rng::new(seed);
                 let mut r = TR { created: vec![], requested: vec![], fails: vec![], tags: vec![] };
-                let ents = world.entities();
-                let lazy = world.read_resource::<LazyUpdate>();
+                let ents = ents_r;
+                let lazy = lazy_r;
                 let mut known: Vec<Entity> = Vec::new();
                 let mut tag = (t as u32) << 20;
                 // Aliveness of a logged handle is fixed for the whole phase (theorem alive_stable):
@@ -1004,11 +1038,16 @@ fn stress(seed: u64, threads: usize, calls: usize, out: &mut String) {
                                 last = e.id() as i64;
                             }
                         }
+                        #[cfg(not(feature = "np"))]
                         _ => {
                             tag += 1;
                             let tg = tag;
                             lazy.exec(move |w| w.write_resource::<LazyLog>().0.push(tg));
                             r.tags.push(tg);
+                        }
+                        #[cfg(feature = "np")]
+                        _ => {
+                            let _ = (lazy, &mut tag);
                         }
                     }
                 }
@@ -1016,7 +1055,8 @@ fn stress(seed: u64, threads: usize, calls: usize, out: &mut String) {
             })
         }).collect();
         hs.into_iter().map(|h| h.join().unwrap_or_else(|_| TR { created: vec![], requested: vec![], fails: vec!["a thread panicked".into()], tags: vec![] })).collect()
-    });
+    })
+    };
     let mut fails: Vec<String> = Vec::new();
     let mut created: Vec<Entity> = Vec::new();
     let mut requested: HashSet<Entity> = HashSet::new();
@@ -1111,7 +1151,11 @@ fn main() {
             let psel: Option<usize> = args.get(5).and_then(|s| s.parse().ok());
             let shard: usize = args.get(6).map(|s| s.parse().unwrap()).unwrap_or(0);
             let nshards: usize = args.get(7).map(|s| s.parse().unwrap()).unwrap_or(1);
-            let sets = psets(threads, calls);
+            let mut sets = psets(threads, calls);
+            if NP {
+                // no lazy calls on the build without `parallel` (LazyUpdate cannot be shared there): an is_alive probe instead
+                for set in sets.iter_mut() { for prog in set.iter_mut() { for c in prog.iter_mut() { if let Call::Lazy(_) = c { *c = Call::Alive(2); } } } }
+            }
             for h in 0..NHIST {
                 if hsel.map_or(false, |x| x != h) { continue; }
                 for (pi, ps) in sets.iter().enumerate() {
